@@ -32,9 +32,29 @@ func runC26(r *Run, seed int64, c c26Case) {
 	w := sim.NewWorld(seed)
 	defer w.Close()
 	cfg := sim.DefaultNodeConfig()
-	m := w.AddNode("alice", cfg)
 	p := w.AddPeer("mallory")
 	q := w.AddPeer("quentin")
+	// three peers that were quarantined earlier, listed in descending key order, each with an otherwise perfectly
+	// usable channel: the quarantine list the new entry is added to is neither empty nor sorted
+	var earlier []*sim.Peer
+	for i := 0; i < 3; i++ {
+		earlier = append(earlier, w.AddPeer(fmt.Sprintf("xavier%d", i)))
+	}
+	sort.Slice(earlier, func(i, j int) bool { return earlier[i].ID > earlier[j].ID })
+	// the policy file as the operator left it: 0 = written by the node itself (operator commands, below);
+	// 1 / 2 = edited by hand, the last line (a quarantine entry resp. an allowlist entry) has no line end
+	fileForm := int(seed % 3)
+	if fileForm > 0 {
+		txt := strings.TrimSuffix(cfg.PolicyText, "\n")
+		for _, x := range earlier {
+			txt += "\nsuspicious_peers=" + x.ID
+		}
+		if fileForm == 2 {
+			txt += "\nallowlisted_peers=" + q.ID
+		}
+		cfg.PolicyText = txt
+	}
+	m := w.AddNode("alice", cfg)
 	w.LN.OpenChannel("100x1x0", m.ID, p.ID, 5_000_000_000, 5_000_000_000)
 	w.LN.OpenChannel("200x1x0", m.ID, p.ID, 5_000_000_000, 5_000_000_000)
 	w.LN.OpenChannel("300x1x0", m.ID, q.ID, 5_000_000_000, 5_000_000_000)
@@ -44,21 +64,25 @@ func runC26(r *Run, seed int64, c c26Case) {
 	}
 	// three peers that were quarantined earlier (operator command), listed in descending key order, each with an
 	// otherwise perfectly usable channel: the quarantine list the new entry is added to is neither empty nor sorted
-	var earlier []*sim.Peer
 	scidOf := map[string]string{}
-	for i := 0; i < 3; i++ {
-		x := w.AddPeer(fmt.Sprintf("xavier%d", i))
+	for i, x := range earlier {
 		scidOf[x.ID] = fmt.Sprintf("%dx1x0", 400+i)
 		w.LN.OpenChannel(scidOf[x.ID], m.ID, x.ID, 5_000_000_000, 5_000_000_000)
-		earlier = append(earlier, x)
 	}
-	sort.Slice(earlier, func(i, j int) bool { return earlier[i].ID > earlier[j].ID })
 	for _, x := range earlier {
+		if fileForm > 0 {
+			if !m.Inc().Policy.IsPeerSuspicious(x.ID) {
+				r.Inconclusive("hand-edited policy file was not read as intended")
+				return
+			}
+			continue
+		}
 		if err := m.Inc().Policy.AddToSuspiciousPeerList(x.ID); err != nil {
 			r.Inconclusive("cannot pre-quarantine: " + err.Error())
 			return
 		}
 	}
+	r.CountIn("policy_file_forms", []string{"written-by-node", "hand-edited-last-line-quarantine-entry-no-newline", "hand-edited-last-line-allowlist-entry-no-newline"}[fileForm])
 	if !c26SeedPeerSync(r, m, p, q) {
 		return
 	}
